@@ -102,8 +102,8 @@ def parseIsize (s : String) : Option Int :=
 
 /-- `s.to_lowercase().parse::<bool>()` -/
 def parseBool (s : String) : Option Bool :=
-  let l := s.toLower
-  if l = "true" then some true else if l = "false" then some false else none
+  let l := s.toList.map Char.toLower
+  if l = ['t', 'r', 'u', 'e'] then some true else if l = ['f', 'a', 'l', 's', 'e'] then some false else none
 
 def hexByte (a b : Char) : Option Nat :=
   match hexVal a, hexVal b with
